@@ -78,7 +78,12 @@ def check(case):
         old = ProcessModel._generate_process_path.__func__ if hasattr(ProcessModel._generate_process_path, '__func__') else ProcessModel._generate_process_path
         for safe in (False, True):
             before = tree_digest(mdir)
-            model.save(mdir, is_safe=safe)
+            for attempt in range(6):          # the real code names the directory by a 4-character clock hash: an accidental collision raises (by design)
+                try:
+                    model.save(mdir, is_safe=safe); break
+                except FileExistsError:
+                    if tree_digest(mdir) != before: fails.append("a colliding save modified the existing directory")
+                    import time as _t; _t.sleep(0.01)
             after = tree_digest(mdir)
             for k, v in before.items():
                 if after.get(k) != v: fails.append("saving a process altered a previously saved file %s" % k)
